@@ -154,7 +154,13 @@ func checkBi(c biCase) *vk.Failure {
 		if f := failClose("correlation", got, want, tol, ctx); f != nil {
 			return f
 		}
-		// range [-1,1] with n*eps slack only (well conditioned samples)
+		// The property states that correlations lie in [-1,1]: a value above one
+		// (a rounding residue of sxy/sqrt(sxx*syy)) makes Sqrt(1-r*r) and Acos(r)
+		// NaN. Reported after the other oracles.
+		if math.Abs(got) > 1 && deferred == nil {
+			deferred = vk.Failf("correlation-exceeds-one", "Correlation = %.17g, |r|-1 = %.3g %s", got, math.Abs(got)-1, ctx)
+		}
+		// and in any case within n*eps of the interval (well conditioned samples)
 		condx := Wf * b.rx.em * b.rx.em / Sx
 		condy := Wf * b.ry.em * b.ry.em / Sy
 		if condx < 1e-8 && condy < 1e-8 {
